@@ -235,8 +235,8 @@ Proof.
     { intros s'' Es i e0 t1 Hi Hcs. apply nth_error_snoc_cases in Hi. destruct Hi as [Hi | [-> ->]].
       * apply (lift_cs P (EWr t l) s s'' (fun t2 x => eq_trans (eq_sym Es) x)); [|symmetry; exact Es]. eapply di_cs; eauto.
       * left. rewrite Es. destruct Hcs as [(l' & E) | (l' & E)]; inversion E; subst. exact Eh. }
-    destruct l as [| |c].
-    1,2: inversion Hs; subst s'; clear Hs; split;
+    destruct l as [|pq| |c].
+    1,2,3: inversion Hs; subst s'; clear Hs; split;
       [ apply Hcsnew; reflexivity
       | intros c; rewrite (di_written _ _ I c); split;
         [ intros (i & t0 & Hi); exists i, t0; apply nth_error_prefix; exact Hi
@@ -402,17 +402,30 @@ Lemma hrel_access t sh stk ds e :
 Proof.
   intros R (l & [-> | ->] & Hl); cbn [dstep]; pose proof (h_holder _ _ _ _ R) as Hh;
     apply holds_spec in Hh; rewrite Hh; [reflexivity|].
-  destruct l; [reflexivity | reflexivity | exfalso; eapply Hl; reflexivity].
+  destruct l; [reflexivity | reflexivity | reflexivity | exfalso; eapply Hl; reflexivity].
 Qed.
 
-Lemma acc_rd_map t sh stk ds : hrel t sh stk ds -> dstep ds (ERd t LMap) = Some ds.
-Proof. intros H. eapply hrel_access; eauto. exists LMap. split; [left; reflexivity | discriminate]. Qed.
-Lemma acc_wr_map t sh stk ds : hrel t sh stk ds -> dstep ds (EWr t LMap) = Some ds.
-Proof. intros H. eapply hrel_access; eauto. exists LMap. split; [right; reflexivity | discriminate]. Qed.
+Lemma acc_rd t sh stk ds l : hrel t sh stk ds -> (forall c, l <> LCell c) -> dstep ds (ERd t l) = Some ds.
+Proof. intros H Hl. eapply hrel_access; [exact H|]. exists l. split; [left; reflexivity | exact Hl]. Qed.
+Lemma acc_wr t sh stk ds l : hrel t sh stk ds -> (forall c, l <> LCell c) -> dstep ds (EWr t l) = Some ds.
+Proof. intros H Hl. eapply hrel_access; [exact H|]. exists l. split; [right; reflexivity | exact Hl]. Qed.
+
+Lemma not_cell_pkgs : forall c, LPkgs <> LCell c. Proof. discriminate. Qed.
+Lemma not_cell_schemas p : forall c, LSchemas p <> LCell c. Proof. discriminate. Qed.
+Lemma not_cell_reg : forall c, LReg <> LCell c. Proof. discriminate. Qed.
+
+Lemma acc_rd_pkgs t sh stk ds : hrel t sh stk ds -> dstep ds (ERd t LPkgs) = Some ds.
+Proof. intros H. eapply acc_rd; [exact H | exact not_cell_pkgs]. Qed.
+Lemma acc_wr_pkgs t sh stk ds : hrel t sh stk ds -> dstep ds (EWr t LPkgs) = Some ds.
+Proof. intros H. eapply acc_wr; [exact H | exact not_cell_pkgs]. Qed.
+Lemma acc_rd_schemas t sh stk ds p : hrel t sh stk ds -> dstep ds (ERd t (LSchemas p)) = Some ds.
+Proof. intros H. eapply acc_rd; [exact H | exact (not_cell_schemas p)]. Qed.
+Lemma acc_wr_schemas t sh stk ds p : hrel t sh stk ds -> dstep ds (EWr t (LSchemas p)) = Some ds.
+Proof. intros H. eapply acc_wr; [exact H | exact (not_cell_schemas p)]. Qed.
 Lemma acc_wr_reg t sh stk ds : hrel t sh stk ds -> dstep ds (EWr t LReg) = Some ds.
-Proof. intros H. eapply hrel_access; eauto. exists LReg. split; [right; reflexivity | discriminate]. Qed.
+Proof. intros H. eapply acc_wr; [exact H | exact not_cell_reg]. Qed.
 Lemma acc_rd_reg t sh stk ds : hrel t sh stk ds -> dstep ds (ERd t LReg) = Some ds.
-Proof. intros H. eapply hrel_access; eauto. exists LReg. split; [left; reflexivity | discriminate]. Qed.
+Proof. intros H. eapply acc_rd; [exact H | exact not_cell_reg]. Qed.
 Lemma acc_rd_cell t sh stk ds c : hrel t sh stk ds -> dstep ds (ERd t (LCell c)) = Some ds.
 Proof. intros R. cbn [dstep]. pose proof (h_holder _ _ _ _ R) as Hh. apply holds_spec in Hh. rewrite Hh. reflexivity. Qed.
 
@@ -422,6 +435,13 @@ Proof. intros H1 H2. cbn [drun]. rewrite H1, H2. reflexivity. Qed.
 
 Lemma drun_one ds e rest : dstep ds e = Some ds -> drun ds (e :: rest) = drun ds rest.
 Proof. intros H. cbn [drun]. rewrite H. reflexivity. Qed.
+
+(* events that do not change the discipline's state pass in any number *)
+Lemma drun_same ds es rest : (forall e, In e es -> dstep ds e = Some ds) -> drun ds (es ++ rest) = drun ds rest.
+Proof.
+  induction es as [|e es IH]; intros H; [reflexivity|]. cbn [app].
+  rewrite (drun_one ds e _ (H e (or_introl eq_refl))). apply IH. intros x Hx. apply H. right. exact Hx.
+Qed.
 
 (* the heap does not change, the stack shrinks or keeps its cells *)
 Lemma hrel_same t sh sh' stk stk' ds :
@@ -507,16 +527,16 @@ Lemma snd_let {A B C} (x : A * B) (f : B -> C) : snd (let (a, b) := x in (a, f b
 Proof. destruct x; reflexivity. Qed.
 
 (* one step inside Schema: its events pass and the relation is kept *)
-Lemma lstep_rel k g n t sh p ds :
+Lemma lstep_rel pk k g n t sh p ds :
   hrel t sh (cs_stack p) ds ->
-  exists ds', drun ds (lstep_events g n t sh p) = Some ds' /\
+  exists ds', drun ds (lstep_events pk g n t sh p) = Some ds' /\
               hrel t (fst (lstep k g n sh p)) (next_stack (snd (lstep k g n sh p))) ds'.
 Proof.
   destruct p as [| | | |stk|stk|stk|c|stk|]; cbn [cs_stack]; intros R.
   - exists ds. split; [reflexivity | exact R].
   - exists ds. split; [reflexivity | exact R].
   - (* PLookup *)
-    cbn [lstep lstep_events]. rewrite (drun_one _ _ _ (acc_rd_map _ _ _ _ R)).
+    cbn [lstep lstep_events]. rewrite (drun_one _ _ _ (acc_rd_schemas _ _ _ _ (pk n) R)).
     destruct (lookup (cmap sh) n) as [c|].
     + rewrite (drun_one _ _ _ (acc_rd_cell _ _ _ _ c R)). exists ds. split; [reflexivity|].
       destruct (cell_to sh c); exact R.
@@ -529,13 +549,15 @@ Proof.
       - intros c [<-|[]]. right. reflexivity.
       - constructor; [intros [] | constructor]. }
     unfold alloc in R1. cbn [fst] in R1.
-    cbn [app]. rewrite (drun_two _ _ _ _ (acc_wr_map _ _ _ _ R1) (acc_wr_reg _ _ _ _ R1)).
+    cbn [app]. rewrite (drun_two _ _ _ _ (acc_wr_schemas _ _ _ _ (pk n) R1) (acc_wr_reg _ _ _ _ R1)).
     destruct (adv_rel t _ f [] ds R1) as (ds' & Hd & R').
     exists ds'. split; [exact Hd|]. rewrite fst_let, snd_let. exact R'.
   - (* PRefLookup *)
     destruct stk as [|f rest]; [exists ds; split; [reflexivity | exact R]|].
     cbn [lstep lstep_events]. destruct (f_todo f) as [|m todo'] eqn:Et; [exists ds; split; [reflexivity | exact R]|].
-    rewrite (drun_one _ _ _ (acc_rd_map _ _ _ _ R)).
+    unfold refpkg_events. cbn [app].
+    rewrite (drun_two _ _ _ _ (acc_rd_pkgs _ _ _ _ R) (acc_wr_pkgs _ _ _ _ R)).
+    rewrite (drun_one _ _ _ (acc_rd_schemas _ _ _ _ (pk m) R)).
     destruct (lookup (cmap sh) m) as [c|].
     + set (f' := mkFrame (f_cell f) todo' (c :: f_done f)).
       assert (R1 : hrel t sh (f' :: rest) ds).
@@ -555,7 +577,7 @@ Proof.
       - cbn. constructor; [|exact (h_nodup _ _ _ _ R)].
         intros Hin. destruct (h_stack _ _ _ _ R _ Hin) as [Hlt _]. lia. }
     unfold alloc in R1. cbn [fst] in R1.
-    cbn [app]. rewrite (drun_two _ _ _ _ (acc_wr_map _ _ _ _ R1) (acc_wr_reg _ _ _ _ R1)).
+    cbn [app]. rewrite (drun_two _ _ _ _ (acc_wr_schemas _ _ _ _ (pk m) R1) (acc_wr_reg _ _ _ _ R1)).
     destruct (adv_rel t _ fnew (f' :: rest) ds R1) as (ds' & Hd & R').
     exists ds'. split; [exact Hd|]. rewrite fst_let, snd_let. exact R'.
   - (* PLinked *)
@@ -630,26 +652,25 @@ Lemma enter_ok ds w :
   drun ds (EAcq w :: enter_events w) =
   Some (mkD (Some w) (d_written ds) (fun u => if Nat.eqb u w then d_written ds else d_vis ds u)).
 Proof.
-  intros H. unfold enter_events. cbn [drun]. cbn [dstep]. rewrite H.
+  intros H. unfold enter_events, refpkg_events. cbn [drun]. cbn [dstep]. rewrite H.
   do 3 (cbn [drun dstep]; unfold holds; cbn [d_holder]; rewrite Nat.eqb_refl).
   reflexivity.
 Qed.
 
-Lemma gstep_events_inside k g t st th n rest :
+Lemma gstep_events_inside pk k g t st th n rest :
   nth_error (s_thr st) t = Some th -> t_calls th = n :: rest -> ~ outside (t_pc th) ->
-  gstep_events Guarded k g t st =
+  gstep_events Guarded pk k g t st =
     let (sh', o) := lstep k g n (s_sh st) (t_pc th) in
-    lstep_events g n t (s_sh st) (t_pc th) ++
+    lstep_events pk g n t (s_sh st) (t_pc th) ++
     match o with
     | inl _ => []
     | inr res =>
-        fin_events t res ++
-        ERel t :: obs_events k t res sh' (result_cell n (s_sh st) (t_pc th)) ++
-        match s_waitq st with w :: _ => EAcq w :: enter_events w | [] => [] end
+        fin_events pk t res sh' ++
+        ERel t :: obs_events k t res sh' (result_cell n (s_sh st) (t_pc th))
     end.
 Proof.
   intros Ht Hc Hin. unfold gstep_events. rewrite Ht, Hc.
-  destruct (t_pc th); try reflexivity. exfalso; apply Hin; left; reflexivity.
+  destruct (t_pc th); try reflexivity; exfalso; apply Hin; [left | right]; reflexivity.
 Qed.
 
 (* the new holder w, at cache.lookup with an empty stack, sees everything written so far *)
@@ -671,12 +692,12 @@ Proof.
 Qed.
 
 Section Rel.
-Variables (k : nat) (g : graph) (calls : list (list name)).
+Variables (pk : name -> N) (k : nat) (g : graph) (calls : list (list name)).
 
 Lemma gstep_rel_inside st t th n rest ds :
   ginv k g calls st -> rel st ds ->
   nth_error (s_thr st) t = Some th -> t_calls th = n :: rest -> ~ outside (t_pc th) ->
-  exists ds', drun ds (gstep_events Guarded k g t st) = Some ds' /\ rel (gstep Guarded k g t st) ds'.
+  exists ds', drun ds (gstep_events Guarded pk k g t st) = Some ds' /\ rel (gstep Guarded k g t st) ds'.
 Proof.
   intros I R Ht Hc Hin.
   pose proof (inside_is_holder _ _ _ _ _ _ I Ht Hin) as El.
@@ -686,11 +707,11 @@ Proof.
   assert (Hnm : n <> unsupported).
   { eapply (gi_calls_ok _ _ _ _ I); eauto. rewrite Hc. left. reflexivity. }
   rewrite (gstep_inside k g t st th n rest Ht Hc Hin).
-  rewrite (gstep_events_inside k g t st th n rest Ht Hc Hin).
+  rewrite (gstep_events_inside pk k g t st th n rest Ht Hc Hin).
   destruct (r_held _ _ R t th El Ht) as (Hvis & Hnd & Hstk).
   assert (HR : hrel t (s_sh st) (cs_stack (t_pc th)) ds).
   { split; [rewrite (r_holder _ _ R); exact El | apply (r_linked _ _ R) | exact Hvis | apply (r_lt _ _ R) | exact Hnd | exact Hstk]. }
-  destruct (lstep_rel k g n t (s_sh st) (t_pc th) ds HR) as (ds1 & Hd1 & R1).
+  destruct (lstep_rel pk k g n t (s_sh st) (t_pc th) ds HR) as (ds1 & Hd1 & R1).
   pose proof (lstep_ok k g n (s_sh st) (t_pc th) Ti Hnm) as LO.
   assert (Hrc : forall sh' res, lstep k g n (s_sh st) (t_pc th) = (sh', inr res) ->
             match result_cell n (s_sh st) (t_pc th) with
@@ -716,55 +737,43 @@ Proof.
     cbn [fst snd next_stack] in R1. specialize (Hrc _ _ eq_refl).
     rewrite drun_app, Hd1.
     (* the end of Schema: its events pass and do not change the discipline's state *)
-    assert (Hfin : forall tail, drun ds1 (fin_events t res ++ tail) = drun ds1 tail).
-    { intros tail. unfold fin_events. destruct res; cbn [app].
-      - rewrite (drun_two _ _ _ _ (acc_rd_reg _ _ _ _ R1) (acc_wr_map _ _ _ _ R1)).
-        apply (drun_one _ _ _ (acc_wr_reg _ _ _ _ R1)).
+    assert (Hfin : forall tail, drun ds1 (fin_events pk t res sh' ++ tail) = drun ds1 tail).
+    { intros tail. unfold fin_events.
+      assert (Hdel : forall tl, drun ds1 ((ERd t LReg :: map (fun n0 => EWr t (LSchemas (pk n0))) (reg sh')) ++ [EWr t LReg] ++ tl) = drun ds1 tl).
+      { intros tl. rewrite drun_same.
+        - apply (drun_one _ _ _ (acc_wr_reg _ _ _ _ R1)).
+        - intros e [<-|He]; [apply (acc_rd_reg _ _ _ _ R1)|].
+          apply in_map_iff in He. destruct He as (n0 & <- & _). apply (acc_wr_schemas _ _ _ _ (pk n0) R1). }
+      destruct res; rewrite <- app_assoc.
+      - apply Hdel.
+      - apply Hdel.
       - apply (drun_one _ _ _ (acc_wr_reg _ _ _ _ R1)).
       - apply (drun_one _ _ _ (acc_wr_reg _ _ _ _ R1)). }
     rewrite Hfin.
     destruct R1 as [H1 H2 H3 H4 _ _].
     cbn [drun dstep]. pose proof H1 as H1'. apply holds_spec in H1'. rewrite H1'.
     set (ds2 := mkD None (d_written ds1) (d_vis ds1)).
-    assert (Hobs : forall tail, drun ds2 (obs_events k t res sh' (result_cell n (s_sh st) (t_pc th)) ++ tail)
-                                = drun ds2 tail).
-    { intros tail. unfold obs_events. destruct res as [| |tr]; [reflexivity | reflexivity|].
+    assert (Hobs : drun ds2 (obs_events k t res sh' (result_cell n (s_sh st) (t_pc th))) = Some ds2).
+    { rewrite <- (app_nil_r (obs_events _ _ _ _ _)).
+      unfold obs_events. destruct res as [| | |tr]; [reflexivity | reflexivity | reflexivity|].
       destruct (result_cell n (s_sh st) (t_pc th)) as [c|]; [|reflexivity].
       destruct Hrc as [E|Bc]; [exfalso; exact (E tr eq_refl)|].
       destruct LO as [(_ & W' & _) | (E & _)]; [|discriminate E].
-      apply drun_obs. intros x Hx. cbn [ds2 d_vis]. apply H3. apply H2.
+      rewrite drun_obs; [reflexivity|]. intros x Hx. cbn [ds2 d_vis]. apply H3. apply H2.
       eapply obs_cells_linked; eauto. }
     rewrite Hobs. subst ds2.
     (* the cache after the call has the same heap *)
     assert (Hheap : heap (finish_shared res sh') = heap sh') by (destruct res; reflexivity).
-    assert (Hl' : forall c, linked (finish_shared res sh') c -> In c (d_written ds1)).
-    { intros c L. apply H2. apply (linked_same sh' _ c Hheap). exact L. }
-    assert (Hlt' : forall c, In c (d_written ds1) -> c < length (heap (finish_shared res sh'))).
-    { rewrite Hheap. exact H4. }
-    unfold release. cbn [s_sh s_lock s_waitq s_thr].
-    destruct (s_waitq st) as [|w q] eqn:Eq.
-    + eexists. split; [reflexivity|]. split; cbn [s_sh s_lock d_holder d_written].
-      * reflexivity.
-      * exact Hl'.
-      * exact Hlt'.
-      * intros h th' Eh. discriminate Eh.
-    + destruct (gi_waitq _ _ _ _ I) as [_ Hw].
-      assert (Hwin : In w (s_waitq st)) by (rewrite Eq; left; reflexivity).
-      apply Hw in Hwin. destruct Hwin as (tw & Htw & Hpw).
-      assert (Hwt : w <> t) by (intros ->; rewrite Ht in Htw; inversion Htw; subst tw; apply Hin; right; exact Hpw).
-      rewrite nth_error_set_nth_neq by congruence. rewrite Htw.
-      eexists. split; [apply enter_ok; reflexivity|].
-      apply rel_new_holder with (tw := with_pc tw PLookup); cbn [d_holder d_written].
-      * reflexivity.
-      * intros c L. apply Hl'. apply (linked_same (finish_shared res sh') _ c eq_refl). exact L.
-      * exact Hlt'.
-      * apply nth_set_eq with (y := tw). rewrite nth_error_set_nth_neq by congruence. exact Htw.
-      * reflexivity.
+    eexists. split; [reflexivity|]. unfold release. split; cbn [s_sh s_lock s_thr d_holder d_written].
+    + reflexivity.
+    + intros c L. apply H2. apply (linked_same sh' _ c Hheap). exact L.
+    + rewrite Hheap. exact H4.
+    + intros h th' Eh. discriminate Eh.
 Qed.
 
 Lemma gstep_rel st t ds :
   ginv k g calls st -> rel st ds ->
-  exists ds', drun ds (gstep_events Guarded k g t st) = Some ds' /\ rel (gstep Guarded k g t st) ds'.
+  exists ds', drun ds (gstep_events Guarded pk k g t st) = Some ds' /\ rel (gstep Guarded k g t st) ds'.
 Proof.
   intros I R. unfold gstep_events, gstep.
   destruct (nth_error (s_thr st) t) as [th|] eqn:Ht; [|exists ds; split; [reflexivity | exact R]].
@@ -789,7 +798,16 @@ Proof.
       * exact H3.
       * eapply nth_set_eq; eauto.
       * reflexivity.
-  - (* PWait *) exists ds. split; [reflexivity | exact R].
+  - (* PWait *)
+    destruct (s_lock st) as [h|] eqn:El; [exists ds; split; [reflexivity | exact R]|].
+    destruct R as [H1 H2 H3 H4]. rewrite El in H1.
+    eexists. split; [apply enter_ok; exact H1|].
+    apply rel_new_holder with (tw := with_pc th PLookup).
+    * exact H1.
+    * intros c L. apply H2. apply (linked_same (s_sh st) _ c eq_refl). exact L.
+    * exact H3.
+    * eapply nth_set_eq; eauto.
+    * reflexivity.
   - assert (Hin : ~ outside (t_pc th)) by (rewrite Hp; intros [E|E]; discriminate E).
     destruct (gstep_rel_inside st t th n rest ds I R Ht Hc Hin) as (ds' & Hd & R').
     unfold gstep_events, gstep in Hd, R'; rewrite Ht, Hc, Hp in Hd, R'.
@@ -827,7 +845,7 @@ Qed.
 (* the whole trace of a guarded run follows the discipline *)
 Lemma events_rel sched : forall st ds,
   ginv k g calls st -> rel st ds ->
-  exists ds', drun ds (events_from Guarded k g sched st) = Some ds'.
+  exists ds', drun ds (events_from Guarded pk k g sched st) = Some ds'.
 Proof.
   induction sched as [|t r IH]; intros st ds I R; [exists ds; reflexivity|].
   cbn [events_from]. destruct (gstep_rel st t ds I R) as (ds1 & Hd & R1).
@@ -837,27 +855,27 @@ Qed.
 
 End Rel.
 
-Theorem guarded_disciplined k g calls sched : calls_ok calls -> disciplined (events Guarded k g calls sched).
+Theorem guarded_disciplined pk k g calls sched : calls_ok calls -> disciplined (events Guarded pk k g calls sched).
 Proof.
-  intros Hok. unfold disciplined, events. apply (events_rel k g calls sched (init calls) d_init).
+  intros Hok. unfold disciplined, events. apply (events_rel pk k g calls sched (init calls) d_init).
   - apply ginv_init. exact Hok.
   - apply rel_init.
 Qed.
 
 (* no data race in any guarded run, and every To field is written once *)
-Theorem guarded_race_free k g calls sched : calls_ok calls ->
-  race_free (events Guarded k g calls sched) /\ write_once (events Guarded k g calls sched).
+Theorem guarded_race_free pk k g calls sched : calls_ok calls ->
+  race_free (events Guarded pk k g calls sched) /\ write_once (events Guarded pk k g calls sched).
 Proof. intros Hok. apply disciplined_race_free. apply guarded_disciplined. exact Hok. Qed.
 
 (* ---- without the lock the model's own trace has a race ------------------------------- *)
 Lemma unguarded_has_race :
-  ~ race_free (events Unguarded 3 [(1%N, [2%N]); (2%N, [])] [[1%N]; [1%N]] [0; 0; 0; 1; 1]).
+  ~ race_free (events Unguarded (fun _ => 0%N) 3 [(1%N, [2%N]); (2%N, [])] [[1%N]; [1%N]] [0; 0; 0; 1; 1]).
 Proof.
   intros H.
-  assert (E : events Unguarded 3 [(1%N, [2%N]); (2%N, [])] [[1%N]; [1%N]] [0; 0; 0; 1; 1] =
-              [EWr 0 LReg; ERd 0 LMap; EWr 0 LMap; ERd 0 LMap; EWr 0 LMap; EWr 0 LReg;
-               EWr 1 LReg; ERd 1 LMap; EWr 1 LMap; ERd 1 LMap; ERd 1 (LCell 0); ERd 1 LReg;
-               EWr 1 LMap; EWr 1 LReg]) by (vm_compute; reflexivity).
+  assert (E : events Unguarded (fun _ => 0%N) 3 [(1%N, [2%N]); (2%N, [])] [[1%N]; [1%N]] [0; 0; 0; 1; 1] =
+              [EWr 0 LReg; ERd 0 LPkgs; EWr 0 LPkgs; ERd 0 (LSchemas 0); EWr 0 (LSchemas 0); EWr 0 LReg;
+               EWr 1 LReg; ERd 1 LPkgs; EWr 1 LPkgs; ERd 1 (LSchemas 0); ERd 1 (LCell 0); ERd 1 LReg;
+               EWr 1 LReg]) by (vm_compute; reflexivity).
   rewrite E in H. clear E.
   (* thread 0 appends to sc.registered (position 5), thread 1 resets it (position 6): no lock operation at all *)
   destruct (H 5 6 (EWr 0 LReg) (EWr 1 LReg)) as (r & a & H1 & H2 & H3 & _).
@@ -866,4 +884,33 @@ Proof.
   - reflexivity.
   - split; [cbn; discriminate|]. exists LReg, true, true. repeat split; left; reflexivity.
   - lia.
+Qed.
+
+(* ---- "fatal error: concurrent map writes" ------------------------------------------------ *)
+(* with the lock no run meets the condition under which the Go runtime aborts *)
+Theorem guarded_no_concurrent_map_access pk k g calls sched : calls_ok calls ->
+  ~ concurrent_map_access (events Guarded pk k g calls sched).
+Proof.
+  intros Hok (i & j & e1 & e2 & l & w1 & w2 & Hij & Hi & Hj & Ht & A1 & A2 & _ & Hw & Hno).
+  destruct (guarded_race_free pk k g calls sched Hok) as [RF _].
+  apply Hno. apply (RF i j e1 e2 Hij Hi Hj). split; [exact Ht|]. exists l, w1, w2. repeat split; assumption.
+Qed.
+
+(* without it the model meets it: thread 0 inserts into the Schemas map of package 0 (position 4)
+   while thread 1 reads that map (position 9), no lock operation in between *)
+Theorem unguarded_concurrent_map_access :
+  concurrent_map_access (events Unguarded (fun _ => 0%N) 3 [(1%N, [2%N]); (2%N, [])] [[1%N]; [1%N]] [0; 0; 0; 1; 1]).
+Proof.
+  assert (E : events Unguarded (fun _ => 0%N) 3 [(1%N, [2%N]); (2%N, [])] [[1%N]; [1%N]] [0; 0; 0; 1; 1] =
+              [EWr 0 LReg; ERd 0 LPkgs; EWr 0 LPkgs; ERd 0 (LSchemas 0); EWr 0 (LSchemas 0); EWr 0 LReg;
+               EWr 1 LReg; ERd 1 LPkgs; EWr 1 LPkgs; ERd 1 (LSchemas 0); ERd 1 (LCell 0); ERd 1 LReg;
+               EWr 1 LReg]) by (vm_compute; reflexivity).
+  rewrite E. clear E.
+  exists 4, 9, (EWr 0 (LSchemas 0)), (ERd 1 (LSchemas 0)), (LSchemas 0), true, false.
+  split; [lia|]. split; [reflexivity|]. split; [reflexivity|]. split; [cbn; discriminate|].
+  split; [reflexivity|]. split; [reflexivity|]. split; [reflexivity|]. split; [left; reflexivity|].
+  intros (r & a & H1 & H2 & H3 & Hr & Ha).
+  (* a release by thread 0 strictly between positions 4 and 9: there is no ERel at all *)
+  cbn [ev_tid] in Hr.
+  do 10 (destruct r as [|r]; [cbn in Hr; try discriminate Hr; try lia|]); lia.
 Qed.
